@@ -35,6 +35,9 @@ Proof. exact stream_legal_refuted_redeclare. Qed.
 Theorem C17_stream_legal_refuted_reset : user_legal 0 reset_witness = true /\
   forall decide, accepted decide (stream reset_witness) = false.
 Proof. exact stream_legal_refuted_reset. Qed.
+Theorem C17_stream_legal_refuted_value : user_legal 0 value_witness = true /\
+  forall decide, accepted decide (stream value_witness) = false.
+Proof. exact stream_legal_refuted_value. Qed.
 (* an invariant of the strict solver for EVERY stream: live assertions only mention symbols in scope *)
 Theorem C17_spec_scoping : forall decide cs s, wf_levels s -> wf_levels (fst (spec_exec decide s cs)).
 Proof. exact spec_exec_wf. Qed.
